@@ -1,28 +1,12 @@
-use crate::common::*;
-use crate::pres::*;
 use credx::presentation::Presentation;
+use crate::pres::*;
 pub fn run() {
-    let mut rng = Rng::new(7);
-    for k in 0..40 {
-        let mix = Mix::random(&mut rng, false);
-        let scn = Scn::<Bbs>::build(&mut rng, &mix);
-        let p = match scn.create() { Out::Ok(p) => p, _ => continue };
-        let js = serde_json::to_string(&p).unwrap();
-        match serde_json::from_str::<Presentation<Bbs>>(&js) {
-            Ok(q) => {
-                if let Err(e) = q.verify(&scn.schema, &scn.nonce) {
-                    println!("{} {}: verify after json: {:?}", k, mix.describe(), e);
-                    let js2 = serde_json::to_string(&q).unwrap();
-                    println!("same json: {}", js == js2);
-                    let a: serde_json::Value = serde_json::from_str(&js).unwrap();
-                    let b: serde_json::Value = serde_json::from_str(&js2).unwrap();
-                    let mut la = vec![]; let mut lb = vec![];
-                    leaves(&a, &mut vec![], &mut la); leaves(&b, &mut vec![], &mut lb);
-                    for (x, y) in la.iter().zip(lb.iter()) { if x != y { println!("  diff {:?} {:?}", x, y); break; } }
-                    return;
-                }
-            }
-            Err(e) => { println!("{} decode err {:?}", k, e); return; }
-        }
-    }
+    let h = std::fs::read_to_string("/verif/work/acc_bare.hex").unwrap();
+    let b = hex::decode(h.trim()).unwrap();
+    let q = serde_bare::from_slice::<Presentation<Bbs>>(&b).unwrap();
+    let b2 = serde_bare::to_vec(&q).unwrap();
+    println!("len {} {}", b.len(), b2.len());
+    for i in 0..b.len().min(b2.len()) { if b[i] != b2[i] { println!("first diff at {}: {:02x} vs {:02x}; context {}", i, b[i], b2[i], hex::encode(&b[i.saturating_sub(8)..(i+8).min(b.len())])); break; } }
+    let js = serde_json::to_string(&q).unwrap();
+    println!("{}", &js[..js.len().min(600)]);
 }
